@@ -406,7 +406,7 @@ func traceToCase(spec *PipeSpec, res *PipeResult, evs []pevent, status string) (
 		tableEnd = res.StateAtQuiet
 	}
 	da := "false"
-	term := fmt.Sprintf("EC %d (Cfg %d false %s) %s %s %s %d", spec.Workers, spec.MaxRedirect, da, coqList(rowIDs), coqList(out), coqBool(complete), tableEnd)
+	term := fmt.Sprintf("EC %d (Cfg %d false %s) %s %s %s %d %d", spec.Workers, spec.MaxRedirect, da, coqList(rowIDs), coqList(out), coqBool(complete), tableEnd, spec.MaxRetry)
 	tags := []string{fmt.Sprintf("w:%d", spec.Workers), fmt.Sprintf("mca:%d", spec.MCA), fmt.Sprintf("seeds:%d", len(spec.LQRows)),
 		fmt.Sprintf("passes:%d", bucket(passes)), fmt.Sprintf("nodes:%d", bucket(maxNodes)), fmt.Sprintf("complete:%v", complete)}
 	if status != "" {
@@ -462,7 +462,7 @@ func pipeSpecFromInput(input string, dir string) *PipeSpec {
 func execPipe(input string) Result {
 	dir, err := os.MkdirTemp("", "zv-pipe-")
 	if err != nil {
-		return Result{Term: "EC 0 (Cfg 0 false false) [] [] false 0", Tags: []string{"mktemp-failed"}}
+		return Result{Term: "EC 0 (Cfg 0 false false) [] [] false 0 0", Tags: []string{"mktemp-failed"}}
 	}
 	if os.Getenv("ZV_KEEP") == "" {
 		defer os.RemoveAll(dir)
@@ -495,7 +495,26 @@ func genPipe(r *Rng, i int, tier string) string {
 	return s
 }
 
+// genPipeAdv: adversarial servers only (C06): endless redirect chains, always-failing and
+// fail-then-succeed URLs, assets of assets; all values of max-redirect / max-retry
+func genPipeAdv(r *Rng, i int, tier string) string {
+	retry := []int{0, 1, 1, 2}[r.Intn(4)]
+	return fmt.Sprintf("site=%d w=%d mca=%d sched=%d seeds=%d mr=%d retry=%d mode=adversarial", r.U64()%1000000, 1+r.Intn(3), 1+r.Intn(3), r.U64()%1000,
+		1+r.Intn(4), r.Intn(4), retry)
+}
+
 func init() {
+	pd := *&Driver{
+		Name:     "pipeadv",
+		Header:   "From ZenoV Require Import Lib.Harness Tree.Item Stage.Pass Stage.PassHarness Pipe.PipeHarness.\nOpen Scope N_scope.\n",
+		CaseType: "ecase",
+		Footer:   stdFooter,
+		Rule:     "non-trivial: the crawl of an adversarial site ran to quiescence, at least one seed was fed back and a tree reached >= 3 nodes",
+		Gen:      genPipeAdv,
+		Exec:     execPipe,
+		Parallel: 6,
+	}
+	register(&pd)
 	register(&Driver{
 		Name:     "pipe",
 		Header:   "From ZenoV Require Import Lib.Harness Tree.Item Stage.Pass Stage.PassHarness Pipe.PipeHarness.\nOpen Scope N_scope.\n",
